@@ -87,6 +87,12 @@ class Timeout(Exception):
 
 # ---- run-time wrapping (no source hook): did a cache retrieval visit a level of the index that holds both the
 # wildcard and a concrete key?  That is the signature of known finding C20-wildcard-preference (DESIGN.md 5.5).
+@predicate
+def same(v):
+    """a @predicate function used as a VALUE: its result is passed on whatever it is"""
+    return v
+
+
 from entity_query_language import cache_data as _cd
 from entity_query_language.utils import All as _All
 TRACE = {'mixed': False, 'retrievals': 0}
@@ -275,6 +281,8 @@ class Builder:
             base = self.term(t[2])
             if t[1][0] == 'i':
                 r = base[t[1][1]]
+            elif t[1][0] == 'p':
+                r = same(base)
             else:
                 name = FIELDS[t[1][1]]
                 r = getattr(base, name[:-2])() if name.endswith('()') else getattr(base, name)
